@@ -245,7 +245,9 @@ def regrouping_and_copy_histories(run, rng, quick):
                 cp = orig.copy() if rng.random() < 0.5 else orig.conj_trans().conj_trans()
                 ordc = list(ordo)
                 hist = []
-                for who in ("copy", "orig", "copy", "orig"):
+                first = "copy" if rng.random() < 0.5 else "orig"
+                second = "orig" if first == "copy" else "copy"
+                for who in (first, second, first, second):
                     obj, od = (cp, ordc) if who == "copy" else (orig, ordo)
                     i = int(rng.integers(n - 1))
                     od[i], od[i + 1] = od[i + 1], od[i]
